@@ -41,6 +41,11 @@ fn rt() -> Duration {
 }
 const QUIET: Duration = Duration::from_millis(400);
 
+/// open file descriptors of this process (the worker runs on a thread of it)
+fn fd_count() -> usize {
+    std::fs::read_dir("/proc/self/fd").map(|d| d.count()).unwrap_or(0)
+}
+
 fn loopback(v6: bool) -> IpAddr {
     if v6 { IpAddr::V6(Ipv6Addr::LOCALHOST) } else { IpAddr::V4(Ipv4Addr::LOCALHOST) }
 }
@@ -186,6 +191,7 @@ fn run(c: &Case, out: &mut Out) {
     let mut bounced = false;
     let mut v6 = false;
     let mut removed = false;
+    let mut fd_base: Option<usize> = None;   // descriptors once the worker, listener and backends are up
     // flow key -> (replies so far, requests so far); a key is the client address (4-tuple) or its IP (2-tuple)
     let mut live: HashMap<String, (u32, u32, usize, SocketAddr, i128, SocketAddr)> = HashMap::new(); // + backend index, upstream peer, owner client, its address
     let mut sent_by: HashMap<i128, Vec<Vec<u8>>> = HashMap::new();
@@ -255,6 +261,7 @@ fn run(c: &Case, out: &mut Out) {
                 }
                 front = Some(faddr);
                 worker = Some(w);
+                fd_base = Some(fd_count());
                 out.obs(&[ts("setup"), tbool(ok)]);
             }
             "send" => {
@@ -386,6 +393,19 @@ fn run(c: &Case, out: &mut Out) {
                             let mine = sent_by.get(cj).map_or(false, |v| v.iter().any(|p| r.ends_with(p) && r.len() == p.len() + 3));
                             out.viol("e2e-isolated", &format!("client {cj} received a datagram while client {ci} was talking (echo of its own earlier datagram: {mine})"));
                         }
+                    }
+                }
+                // upstream sockets balance: one descriptor per live flow, none left behind by a closed one
+                if let (Some(base), false) = (fd_base, bounced) {
+                    let expect = base + clients.len() + live.len();
+                    let mut got = fd_count();
+                    let t0 = Instant::now();
+                    while got > expect && t0.elapsed() < Duration::from_millis(300) {
+                        thread::sleep(Duration::from_millis(10));
+                        got = fd_count();
+                    }
+                    if got > expect {
+                        out.viol("e2e-socket-leak", &format!("{} descriptors open, expected {expect} (worker+listener+backends {base}, clients {}, live flows {}): an upstream socket outlived its flow", got, clients.len(), live.len()));
                     }
                 }
                 if worker.as_ref().map_or(false, |w| w.job.is_finished()) {
